@@ -34,7 +34,7 @@ type Case struct {
 	Seed uint64 `json:"seed"`
 }
 
-var kindsFlag = flag.String("kinds", "endpoint,slots,shards,table,do,multi", "case kinds to generate")
+var kindsFlag = flag.String("kinds", "endpoint,enc,slots,shards,table,do,multi", "case kinds to generate")
 var propFlag = flag.String("prop", "C19", "which property's direct oracle is evaluated: C19 | C20 | C28")
 
 func genCase(r *gen.Rand, i int) any {
@@ -753,6 +753,8 @@ func main() {
 			switch c.K {
 			case "endpoint", "slots", "shards":
 				return runParse(c)
+			case "enc":
+				return runEnc(c)
 			case "table":
 				return runTable(c)
 			case "do":
@@ -764,4 +766,92 @@ func main() {
 			return obs.Result{Kind: "unknown"}
 		},
 	})
+}
+
+// runEnc: an abstract topology (the spec side of C19_parse_slots_spec / C19_table_shards), encoded by an
+// independent Go encoder in the form Model/ClusterSpec.v and ClusterShardSpec.v describe, through the real parsers.
+func runEnc(c Case) (res obs.Result) {
+	r := gen.New(c.Seed)
+	res.Kind = "enc"
+	es := genTopo(r, r.Chance(1, 4))
+	shards := r.Chance(1, 2)
+	tls := shards && r.Chance(1, 3)
+	var m ro.Msg
+	var coq string
+	if shards {
+		var out []ro.Msg
+		var sh []string
+		for _, e := range es {
+			var sl []ro.Msg
+			var rg []string
+			for _, x := range e.Ranges {
+				sl = append(sl, ro.Int(x[0]), ro.Int(x[1]))
+				rg = append(rg, "("+obs.Z(x[0])+", "+obs.Z(x[1])+")")
+			}
+			var ns []ro.Msg
+			var nq []string
+			for _, n := range e.Nodes {
+				role, health := "replica", "fail"
+				if n.Role == "master" {
+					role = "master"
+				}
+				if n.Health == "online" {
+					health = "online"
+				}
+				ns = append(ns, ro.MapOf(ro.Str("id"), ro.Str(""), ro.Str("port"), ro.Int(n.Port), ro.Str("ip"), ro.Str(n.Host), ro.Str("endpoint"), ro.Str(n.Host),
+					ro.Str("role"), ro.Str(role), ro.Str("replication-offset"), ro.Int(0), ro.Str("health"), ro.Str(health), ro.Str("tls-port"), ro.Int(n.TLS)))
+				nq = append(nq, fmt.Sprintf("(mkHnode %s %s %s %s %s)", obs.HS(n.Host), obs.Z(n.Port), obs.Z(n.TLS), obs.Bool(role == "master"), obs.Bool(health == "online")))
+			}
+			out = append(out, ro.MapOf(ro.Str("slots"), ro.Arr(sl...), ro.Str("nodes"), ro.Arr(ns...)))
+			sh = append(sh, fmt.Sprintf("(mkShard %s %s)", obs.List(rg), obs.List(nq)))
+		}
+		m = ro.Arr(out...)
+		coq = obs.List(sh)
+	} else {
+		var out []ro.Msg
+		var sq []string
+		for _, e := range es {
+			for _, x := range e.Ranges {
+				it := []ro.Msg{ro.Int(x[0]), ro.Int(x[1])}
+				var nq []string
+				for _, n := range e.Nodes {
+					it = append(it, ro.Arr(ro.Str(n.Host), ro.Int(n.Port), ro.Str("id")))
+					nq = append(nq, fmt.Sprintf("(mkSnode %s %s)", obs.HS(n.Host), obs.Z(n.Port)))
+				}
+				out = append(out, ro.Arr(it...))
+				sq = append(sq, fmt.Sprintf("(mkSentry %s %s %s)", obs.Z(x[0]), obs.Z(x[1]), obs.List(nq)))
+			}
+		}
+		m = ro.Arr(out...)
+		coq = obs.List(sq)
+	}
+	var got []rueidis.VerifRouteGroup
+	panicked := true
+	func() {
+		defer func() { _ = recover() }()
+		if shards {
+			got = rueidis.VerifRouteParseShards(m.Redis(), defaultAddr, tls)
+		} else {
+			got = rueidis.VerifRouteParseSlots(m.Redis(), defaultAddr)
+		}
+		panicked = false
+	}()
+	impl := obs.Panic
+	if !panicked {
+		impl = obs.Ok(igroups(got))
+	}
+	if shards {
+		res.Coq = obs.App("CEncShards", obs.HS("127.0.0.1"), obs.Bool(tls), coq, m.Coq(), impl)
+	} else {
+		res.Coq = obs.App("CEncSlots", obs.HS("127.0.0.1"), coq, m.Coq(), impl)
+	}
+	b, _ := json.Marshal(m)
+	res.Sig = "enc" + fmt.Sprint(shards, tls) + string(b)
+	res.Nontrivial = len(m.A) > 0
+	res.Obs = map[string]any{"panic": panicked, "groups": got}
+	res.Site, res.Class = "cluster.go:parseSlots/parseShards", "panic"
+	if panicked {
+		res.Oracle = "topology parser panicked on a well-formed reply"
+	}
+	return
 }
